@@ -238,5 +238,8 @@ def run(col, configs, tier):
         guarded(col, rule_empty_after_sign, facts)
         from rules import extra as X2
         guarded(col, X2.rule_unchecked_window, facts)
+        guarded(col, X2.rule_take_n_window_size, facts)
         guarded(col, X2.rule_sign_in_accumulation, facts)
         guarded(col, X2.rule_suffix_step, facts)
+        from rules import sep as SEP4
+        guarded(col, SEP4.rule_take_n_twins, facts)
